@@ -9,7 +9,13 @@ SERVER = dict(pkg_dir="cmd/zoekt-webserver/grpc/server", run="TestVerifC25$", fi
 SEARCH = dict(pkg_dir="search", run="TestVerifC25$", files=["search/zz_verif_c25_test.go"])
 CHUNK = dict(pkg_dir="grpc/chunk", run="TestVerifC25Const$", files=["chunk/zz_verif_c25_const_test.go"])
 
-RULE = ("(1) gRPC stage: event sequences pushed by a fake Streamer through the real Server.StreamSearch into a recording stream: seven shapes "
+RULE = ("(1) gRPC stage: event sequences pushed by a fake Streamer through the real Server.StreamSearch into a recording stream. Every second case is a "
+        "ONE-HOT case: stats-only runs in which exactly one counter field of zoekt.Stats is non-zero; field and sub-shape cycle with the case index "
+        "(field = k mod #fields, sub-shape = (k div #fields) mod 5) so that within the first 2*#fields cases every counter has a run that only Flush can deliver: "
+        "onehot-tail (run ends the stream, after an optional prefix ending in a file event), onehot-minimal (the stream is one event with value 1 in one counter), "
+        "onehot-period (99/100/101 one-hot events around the every-100th sampling point, or all-zero events up to the 99th and the first non-zero one as the 100th), "
+        "onehot-then-file (run merged into the next file event), onehot-whole (run of 1..250 events is the whole stream). "
+        "The other cases: seven shapes "
         "(mixed; stats-only runs of 95-106 events around the sampling period; several periods with all-zero stretches; huge files 300 KiB-1.1 MiB "
         "incl. single files above the budget and pairs straddling it; zero-only; files/100 stats/files; file pairs whose proto sizes sum to "
         "maxMessageSize-1/+0/+1 exactly), random counters on every numeric field of zoekt.Stats found by reflection, FlushReason, Duration, integral "
@@ -20,6 +26,9 @@ RULE = ("(1) gRPC stage: event sequences pushed by a fake Streamer through the r
 TRUSTED = ["correspondence harnesses harness/overlay/server/zz_verif_c25_test.go (fake Streamer, recording stream), harness/overlay/search/zz_verif_c25_test.go "
            "(recording sender, timer-controlled flush point; cases in which the machine stalled the sender before the timer are discarded and regenerated), "
            "harness/overlay/chunk/zz_verif_c25_const_test.go (reads maxMessageSize); generators and Go oracles therein",
+           "translator/statsfields (go/parser + go/ast over package zoekt of the checked tree): fields of `type Stats struct`, `s.X += o.X` of Stats.Add, `s.X > 0` leaves of "
+           "Stats.Zero -> coq/Generated/StatsFields.v; statements/leaves of any other shape are listed as unrecognised and make C25_zero_tests_every_summed_counter fail; "
+           "the named exceptions Duration (not touched by Add, not tested by Zero) and FlushReason (first non-zero wins) are written by hand in coq/Proofs/StatsFields.v",
            "proto.Size of each FileMatch is an input of the model (recorded by the harness)",
            "priorities restricted to integers and -Inf (math.Max / < modelled on option Z); all stream sends succeed",
            "ranking (index.SortFiles) is a parameter of the collect-stage theorems (any permutation); the correspondence compares the aggregate's files as a set; display limits (truncation) are outside the model",
